@@ -22,10 +22,13 @@ def flagList : Parser (List Bytes) := parenthesizedList flagPerm
 
 /-! ### capability -/
 
-def capability : Parser Capability :=
-  alt (map (tagNoCase (b!"IMAP4rev1")) fun _ => Capability.imap4rev1) <|
-  alt (map (do tagNoCase (b!"AUTH="); atom) Capability.auth) <|
-  map atom Capability.atom
+/-- classify the complete atom -/
+def classifyCapability (a : Bytes) : Capability :=
+  if eqIgnoreAsciiCase a (b!"IMAP4rev1") then .imap4rev1
+  else if a.length > 5 && eqIgnoreAsciiCase (a.take 5) (b!"AUTH=") then .auth (a.drop 5)
+  else .atom a
+
+def capability : Parser Capability := map atom classifyCapability
 
 def ensureCapabilitiesContainsImap4rev (caps : List Capability) : Option (List Capability) :=
   if caps.contains Capability.imap4rev1 then some caps else none
@@ -109,19 +112,18 @@ def mailboxDataExists : Parser MailboxDatum := do
 def nameAttributeExt : Parser Bytes :=
   mapRes (do tag (b!"\\"); let s ← takeWhile isAtomChar; pure (92 :: s)) utf8
 
-def nameAttribute : Parser NameAttribute :=
-  alt (map (tagNoCase (b!"\\Noinferiors")) fun _ => NameAttribute.noInferiors) <|
-  alt (map (tagNoCase (b!"\\Noselect")) fun _ => NameAttribute.noSelect) <|
-  alt (map (tagNoCase (b!"\\Marked")) fun _ => NameAttribute.marked) <|
-  alt (map (tagNoCase (b!"\\Unmarked")) fun _ => NameAttribute.unmarked) <|
-  alt (map (tagNoCase (b!"\\All")) fun _ => NameAttribute.all) <|
-  alt (map (tagNoCase (b!"\\Archive")) fun _ => NameAttribute.archive) <|
-  alt (map (tagNoCase (b!"\\Drafts")) fun _ => NameAttribute.drafts) <|
-  alt (map (tagNoCase (b!"\\Flagged")) fun _ => NameAttribute.flagged) <|
-  alt (map (tagNoCase (b!"\\Junk")) fun _ => NameAttribute.junk) <|
-  alt (map (tagNoCase (b!"\\Sent")) fun _ => NameAttribute.sent) <|
-  alt (map (tagNoCase (b!"\\Trash")) fun _ => NameAttribute.trash) <|
-  map nameAttributeExt NameAttribute.extension
+/-- the known attributes (RFC 3501, RFC 6154), compared with the complete flag ignoring case -/
+def knownNameAttributes : List (Bytes × NameAttribute) :=
+  [(b!"\\Noinferiors", .noInferiors), (b!"\\Noselect", .noSelect), (b!"\\Marked", .marked),
+   (b!"\\Unmarked", .unmarked), (b!"\\All", .all), (b!"\\Archive", .archive), (b!"\\Drafts", .drafts),
+   (b!"\\Flagged", .flagged), (b!"\\Junk", .junk), (b!"\\Sent", .sent), (b!"\\Trash", .trash)]
+
+def classifyNameAttribute (s : Bytes) : NameAttribute :=
+  match knownNameAttributes.find? (fun e => eqIgnoreAsciiCase s e.1) with
+  | some e => e.2
+  | none => .extension s
+
+def nameAttribute : Parser NameAttribute := map nameAttributeExt classifyNameAttribute
 
 def mailboxList : Parser (List NameAttribute × Option Bytes × Bytes) := do
   let nameAttributes ← parenthesizedList nameAttribute
@@ -220,6 +222,7 @@ def msgAttUid : Parser AttributeValue := do
 def msgAtt : Parser AttributeValue :=
   alt msgAttBodySection <|
   alt msgAttBodyStructure <|
+  alt msgAttBody <|
   alt msgAttEnvelope <|
   alt msgAttInternalDate <|
   alt msgAttFlags <|
